@@ -31,7 +31,7 @@ META = {
         "when the event is defined)",
     ],
     "must_observe": ["accepted", "rejected", "warned"],
-    "shard_timeout": {"quick": 600, "thorough": 3000},
+    "shard_timeout": {"quick": 900, "thorough": 3000},
     "max_samples": 6,
 }
 
